@@ -473,7 +473,7 @@ pub fn pair_table(amounts: &[f64], seps: &[usize]) -> Vec<Case> {
 }
 
 pub fn run(ctx: &Ctx) {
-    ctx.rule("ALL ordered pairs of the 33 configured units (within and across the metric/imperial families, and across kinds) enumerated x amounts x separator conventions, every configured spelling (69 names) checked against a by-name definition table; generated: a U1 to|in|into|as U2, chains U1->U2->U3 (incl. back to U1), a U1 +- b U2, a U1 * n, a U1 / n, a U1 / b U2, amounts +-[1e-6, 1e12] with fractions and thousands groups, 4 separator conventions; oracle: hard-coded SI table in the harness (never read from config.json): same kind -> amount*f(U1)/f(U2) in unit U2 (family + index read from the AST), different kinds -> the result is not a quantity of another kind; relations on the real code: linearity conv(3a)=3conv(a), transitivity U1->U2->U3 = U1->U3, inverse U1->U2->U1 = a; non-trivial = U1 != U2 (or a different-kind pair, arithmetic between different units)");
+    ctx.rule("ALL ordered pairs of the 33 configured units (within and across the metric/imperial families, and across kinds) enumerated x amounts x separator conventions, every configured spelling (69 names) checked against a by-name definition table; generated: a U1 to|in|into|as U2, chains U1->U2->U3 (incl. back to U1), a U1 +- b U2, a U1 * n, a U1 / n, a U1 / b U2, amounts +-[1e-6, 1e12] with fractions and thousands groups, 4 separator conventions; a conversion applied to a sum: 'a U1 +- b U2 to U3', also with b U2 held in a name bound on an earlier line (expected: the SUM converted); oracle: hard-coded SI table in the harness (never read from config.json): same kind -> amount*f(U1)/f(U2) in unit U2 (family + index read from the AST), different kinds -> the result is not a quantity of another kind; relations on the real code: linearity conv(3a)=3conv(a), transitivity U1->U2->U3 = U1->U3, inverse U1->U2->U1 = a; non-trivial = U1 != U2 (or a different-kind pair, arithmetic between different units)");
     ctx.assume("target unit names are written exactly as configured (the target lookup is case-sensitive); tolerance 1e-9 relative (the library multiplies step by step along the chain)");
     match ctx.tier {
         crate::engine::Tier::Quick => ctx.run_table(&Units, "all-unit-pairs", pair_table(&[1.0, 2.5], &[0]), true),
